@@ -151,7 +151,7 @@ EXTRA_TEXT = {
  'C13': WIRE + ' The frames stage includes frames whose payload CRC32 or header CRC32 is a boundary value of the checksum field (0, 2^32-1, 1, 2^31; four command bytes solved over GF(2)), each with the full set of damages.',
  'C14': WIRE + ' snapcheck/rw ends every batch with a concurrent phase: 8 readers load 6 images (1.5-3 blocks and small ones) at overlapping times with PRNG read sizes while 2 writers produce and verify new images; every load must be byte-identical.',
  'C15': WIRE + ' The chunks stage runs on a strict file system and ends every script with a power loss (finalized, announced snapshots must survive byte for byte).',
- 'C16': ' Node level (E2 replay stage): whenever a host comes back - after a power loss at step-worker points, at call boundaries of the user state machine (snapshot save / recovery / sync), at the log store boundary (a snapshot record that became durable ahead of the durable commit index) or at arbitrary moments, or after a graceful stop - the real start-up cleanup (snapshotter.processOrphans) is run on the reopened log store before the replica starts and the directory oracle is applied: only the recorded snapshot remains, complete and loadable, no temporary, flagged or unrecorded directory. E4 chunks stage: power loss after every receiver script, a finalized and announced snapshot must survive byte for byte. Importer stage: on one listed host the import tool first runs with the power cut right before or right after it rewrites the log store (it runs to its end on a disk that no longer persists anything); after the reboot the real start-up cleanup and the same directory oracle are applied (a snapshot that the log store records exists, complete and loadable), then the import is repeated.',
+ 'C16': ' Node level (E2 replay stage): whenever a host comes back - after a power loss at step-worker points, at call boundaries of the user state machine (snapshot save / recovery / sync), at the log store boundary (a snapshot record that became durable ahead of the durable commit index) or at arbitrary moments, or after a graceful stop - the real start-up cleanup (snapshotter.processOrphans) is run on the reopened log store before the replica starts and the directory oracle is applied: only the recorded snapshot remains, complete and loadable, no temporary, flagged or unrecorded directory. E4 chunks stage: power loss after every receiver script, a finalized and announced snapshot must survive byte for byte. Importer stage: on one listed host the import tool first runs with the power cut right before or right after it rewrites the log store (it runs to its end on a disk that no longer persists anything); after the reboot the real start-up cleanup and the same directory oracle are applied (a snapshot that the log store records exists, complete and loadable), then the import is repeated. One known finding of that stage is listed in KNOWN_FINDINGS.txt (power loss before the log store is rewritten, on a host that holds old data of the replica: the old snapshot directories are already removed); the same oracle at the other site and at every other restart stays armed.',
  'C17': ' A quarter of the E1 cases run with rate limiting (MaxInMemLogSize 2-18 KB, padded proposals, the mini-node holds proposals back while the peer reports RateLimited as node.go does). Directed E2 case: 2 voters + witness, snapshots covering the AddWitness entry, the follower host restarts, the leader host stays down - the follower must lead with the witness within 400 ticks and complete a proposal. A third of the E2 progress cases run with rate limiting (MaxInMemLogSize 8-72 KB, commands up to 1.5 KB, a slowly applying voter, bursts of writers; proposals refused with ErrSystemBusy are counted). Directed prefixes of the fifth session: two followers of an on-disk shard that need a streamed snapshot at the same time (the second request is refused while the first stream runs), and a snapshot transfer disturbed by an in-process restart of the receiver or by a cut of its link (PreVote on): the lagging replica catches up within 2000 / 4000 ticks of its own clock.',
  'C06': ' E2 readstorm stage: two more clients on the slow follower issue ReadIndex and release the request without taking its result (one every 10-30 ms): a read that gets such a pooled object must still be confirmed and wait for its index.',
  'C10': ' In every second fault workload the last SaveRaftState carries up to three entries of 40-70 KB (one Tan record of several 32 KB blocks, a large Pebble batch); every file-system operation of that save is a fault point in the quick tier too.',
